@@ -128,6 +128,24 @@ type xlate struct {
 	stateVars  map[string]*svar
 	bytesIndex bool
 	recv       string // method translation: name of the receiver; `recv.f` is the state variable `recv_f`
+	// a variable that SHADOWS one of an enclosing scope gets its own state variable (`n_1`): object -> state name
+	objName map[types.Object]string
+}
+
+// identName: the state-variable name an identifier denotes (its own name unless it was renamed for shadowing)
+func (x *xlate) identName(id *ast.Ident) string {
+	if x.objName != nil {
+		obj := x.p.info.Uses[id]
+		if obj == nil {
+			obj = x.p.info.Defs[id]
+		}
+		if obj != nil {
+			if n, ok := x.objName[obj]; ok {
+				return n
+			}
+		}
+	}
+	return id.Name
 }
 
 // stateName: the state variable an identifier or a receiver field denotes ("" if none)
@@ -135,8 +153,8 @@ func (x *xlate) stateName(e ast.Expr) string {
 	switch e := e.(type) {
 	case *ast.Ident:
 		if x.stateVars != nil {
-			if _, ok := x.stateVars[e.Name]; ok {
-				return e.Name
+			if _, ok := x.stateVars[x.identName(e)]; ok {
+				return x.identName(e)
 			}
 		}
 	case *ast.SelectorExpr:
@@ -185,8 +203,8 @@ func (x *xlate) expr(e ast.Expr) string {
 		return x.expr(e.X)
 	case *ast.Ident:
 		if x.stateVars != nil {
-			if _, ok := x.stateVars[e.Name]; ok {
-				return "s." + e.Name
+			if _, ok := x.stateVars[x.identName(e)]; ok {
+				return "s." + x.identName(e)
 			}
 		}
 		return e.Name
